@@ -60,25 +60,20 @@ Theorem C17_rechannelise_centre_odd : forall w m, (0 < s_n w)%Z -> (0 < m)%Z ->
 Proof. exact rechannelise_centre_odd. Qed.
 Print Assumptions C17_rechannelise_centre_odd.
 
-(* FULL STATEMENT (timestamps of a preselected data set = timestamps a..b of the whole data set):
-     forall tm n a b j, a <= b <= n -> j < b - a ->
-       nth j (timestamps_pre tm a b) 0 == nth j (slice a b (timestamps_full tm n)) 0
-   is FALSE of the faithful model (the fix decision looks at the first PRESELECTED dump): *)
-Theorem C17_preselect_timestamps_refuted :
-  exists tm a i, ~ (model_timestamp tm a i == spec_timestamp tm (a + i)).
-Proof. exact preselect_timestamps_refuted. Qed.
-Print Assumptions C17_preselect_timestamps_refuted.
-
-(* ... and true whenever the first preselected dump and the first dump of the capture lie on the same side of
-   the applicable fix date (always the case unless the capture straddles 00:00 UTC of that date) *)
-Theorem C17_preselect_timestamps_partial : forall tm n a b j, (a <= b <= n)%nat -> (j < b - a)%nat ->
-  Qltb (raw_stamp tm (Z.of_nat a)) (inject_Z (doc_fix_date (t_cmc2 tm) (t_cbf4k tm))) =
-  Qltb (raw_stamp tm 0) (inject_Z (doc_fix_date (t_cmc2 tm) (t_cbf4k tm))) ->
+(* timestamps of a preselected data set = timestamps a..b of the whole data set, for every timing, every
+   capture date and every range (after the repair of F21 the fix decision looks at the start of the capture) *)
+Theorem C17_preselect_timestamps : forall tm n a b j, (a <= b <= n)%nat -> (j < b - a)%nat ->
   nth j (timestamps_pre tm a b) 0 == nth j (slice a b (timestamps_full tm n)) 0.
-Proof.
-  intros tm n a b j Hab Hj H. apply preselect_timestamps; auto. apply same_side_same_fix. exact H.
-Qed.
-Print Assumptions C17_preselect_timestamps_partial.
+Proof. exact preselect_timestamps. Qed.
+Print Assumptions C17_preselect_timestamps.
+
+(* before the repair (decision taken on the first PRESELECTED dump) this was false for captures straddling a
+   fix date: the witness on which the old and the new model differ *)
+Theorem C17_preselect_timestamps_refuted_before_fix :
+  exists tm a i, ~ (model_timestamp_pre tm a i == spec_timestamp tm (a + i))
+                 /\ model_timestamp tm a i == spec_timestamp tm (a + i).
+Proof. exact preselect_timestamps_refuted_before_fix. Qed.
+Print Assumptions C17_preselect_timestamps_refuted_before_fix.
 
 Theorem C17_preselect_freqs : forall w c d w' j,
   subrange w (Z.of_nat c) (Z.of_nat d) = Some w' -> (j < d - c)%nat ->
